@@ -143,7 +143,8 @@ func keepBodies(filename string) bool {
 		pkg := filepath.Dir(filename[i+5:])
 		switch pkg {
 		case "errors", "strings", "sort", "strconv", "bytes", "unicode", "unicode/utf8", "math", "math/bits",
-			"sync", "sync/atomic", "context", "slices", "maps", "cmp", "iter", "internal/stringslite", "internal/bytealg", "internal/itoa":
+			"sync", "sync/atomic", "context", "slices", "maps", "cmp", "iter", "internal/stringslite", "internal/bytealg", "internal/itoa",
+			"encoding/hex", "encoding/base64", "encoding/binary", "unicode/utf16", "path", "container/list", "container/heap":
 			return true
 		}
 	}
